@@ -106,8 +106,34 @@ def keep(prop, m, sid, caught, verified):
     print("kept", dst)
 
 
+def sweep(only=None):
+    """re-run every kept seeded change against the current checks; record the outcome in its meta.json"""
+    rows = []
+    for sid in sorted(os.listdir("/verif/seeded")):
+        d = f"/verif/seeded/{sid}"
+        if not os.path.exists(f"{d}/patch.diff") or (only and sid not in only):
+            continue
+        meta = json.load(open(f"{d}/meta.json"))
+        if "caught_by_initial" not in meta:
+            meta["caught_by_initial"] = meta.get("caught_by", {})
+        c = check(meta["property"], None, src=d)
+        if c is None:
+            meta["caught_by"] = {"note": "patch no longer applies to /repo HEAD"}
+        else:
+            meta["caught_by"] = c
+        json.dump(meta, open(f"{d}/meta.json", "w"), indent=1)
+        own = [k for k in (c or {}) if (c[k]["exit"] == 1)]
+        ref = [k for k in (c or {}) if (c[k]["exit"] == 2)]
+        rows.append((sid, "CAUGHT " + ",".join(own) if own else ("REFUSED " + ",".join(ref) if ref else ("n/a" if c is None else "MISSED"))))
+    for r in rows:
+        print("%-10s %s" % r)
+
+
 if __name__ == "__main__":
     cmd = sys.argv[1]
+    if cmd == "sweep":
+        sweep(set(sys.argv[2:]) or None)
+        sys.exit(0)
     if cmd == "verify":
         verify(sys.argv[2], sys.argv[3])
     elif cmd == "check":
